@@ -75,4 +75,42 @@ theorem c23 (cfg : Cfg) (idMin idMax : UInt16) (evs : List (Nat × Event)) (t : 
 example (d : Bytes) (h : d.length = 7168) : SnOk (.publish false 2 false 0 1 1 d) :=
   ⟨by simp [Legal, h, maxPayload, Gen.MaxPayloadLength], by simp only [Pkt.typeCode]; decide⟩
 
+/-- **C23 (tie of the all-runs theorem).** The inventory of places where the gateway's code writes to the client
+    link — every call of `snSend`, `snSendNow`, `ProceedSN`, `flushPktBuffer` in the package, regenerated from the
+    source on every run — is the reviewed one the model's emission sites (`Sites`, `Lemmas/GwEmits.lean`) were
+    written against.  A change that adds, removes or moves such a call breaks this obligation. -/
+theorem c23_emission_sites :
+    Gen.snSendSites_gateway =
+     ["broker_publish_qos2_transaction.go:Pubrel:ProceedSN",
+      "broker_publish_transaction.go:ProceedSN:snSend",
+      "broker_publish_transaction.go:regack:ProceedSN",
+      "broker_publish_transaction.go:resend:snSend",
+      "client_publish_qos1_transaction.go:Puback:snSend",
+      "connect_transaction.go:SendConnack:snSend",
+      "connect_transaction.go:WillTopic:snSend",
+      "connect_transaction.go:authenticated:snSend",
+      "handler1.go:flushPktBuffer:snSend",
+      "handler1.go:handleBrokerPublish:ProceedSN",
+      "handler1.go:handleBrokerPublish:snSend",
+      "handler1.go:handleConnect:flushPktBuffer",
+      "handler1.go:handleConnect:snSend",
+      "handler1.go:handleConnect:snSend",
+      "handler1.go:handleConnect:snSend",
+      "handler1.go:handleMqtt:snSend",
+      "handler1.go:handleMqtt:snSend",
+      "handler1.go:handleMqtt:snSend",
+      "handler1.go:handleMqtt:snSend",
+      "handler1.go:handleMqttSn:flushPktBuffer",
+      "handler1.go:handleMqttSn:snSend",
+      "handler1.go:handleMqttSn:snSend",
+      "handler1.go:handleMqttSn:snSend",
+      "handler1.go:handleMqttSn:snSend",
+      "handler1.go:handleMqttSn:snSendNow",
+      "handler1.go:handleSubscribe:snSend",
+      "handler1.go:handleSubscribe:snSend",
+      "handler1.go:run:snSend",
+      "handler1.go:run:snSend",
+      "handler1.go:snSend:snSendNow",
+      "subscribe_transaction.go:Suback:snSend"] := rfl
+
 end Bisquitt.Gw
